@@ -173,6 +173,15 @@ def main(argv=None):
             shards = mod.plan(tier, seed)
         if shards and not replay and meta.get("reach", True):
             shards[0]["_reach"] = True
+        if not replay and meta.get("threads_copy", True) and shards:
+            # the same property under concurrency for free: one ordinary shard is run a second time by four
+            # threads at once in a fresh process (reference oracles are pure, so every verdict stays valid);
+            # the threads start together, i.e. their first library calls are a cold concurrent start
+            src = next((s_ for s_ in shards if not s_.get("_env") and not s_.get("_scratch") and s_.get("kind") not in ("contracts", "cold", "xproc", "threads")), None)
+            if src is not None:
+                cp = json.loads(json.dumps(src))
+                cp.update({"_threads": 4, "_prelude": False, "_reach": False, "_name": "threads-of-" + str(src.get("_name"))})
+                shards.append(cp)
         if not replay and meta.get("prelude", True):
             for i_, s_ in enumerate(shards):
                 if i_ % 2 == 1 and "_prelude" not in s_:
